@@ -296,7 +296,7 @@ void ezc3d::c3d::unlockGroup(const std::string &groupName)
 void ezc3d::c3d::frame(const ezc3d::DataNS::Frame &f, size_t idx)
 {
     // Make sure f.points().points() is the same as data.f[ANY].points()
-    size_t nPoints(static_cast<size_t>(parameters().group("POINT").parameter("USED").valuesAsInt()[0]));
+    size_t nPoints(static_cast<size_t>(parameters().group("POINT").parameter("USED").valuesAsInt().at(0)));
     if (nPoints != 0 && f.points().nbPoints() != nPoints)
         throw std::runtime_error("Number of points in POINT:USED parameter must equal"
                                  "the number of points sent in the frame");
@@ -309,14 +309,14 @@ void ezc3d::c3d::frame(const ezc3d::DataNS::Frame &f, size_t idx)
             throw std::invalid_argument("All the points in the frame must appear in the POINT:LABELS parameter");
         }
 
-    if (f.points().nbPoints() > 0 && static_cast<double>(parameters().group("POINT").parameter("RATE").valuesAsFloat()[0]) == 0.0){
+    if (f.points().nbPoints() > 0 && static_cast<double>(parameters().group("POINT").parameter("RATE").valuesAsFloat().at(0)) == 0.0){
         throw std::runtime_error("Point frame rate must be specified if you add some");
     }
-    if (f.analogs().nbSubframes() > 0 && static_cast<double>(parameters().group("ANALOG").parameter("RATE").valuesAsFloat()[0]) == 0.0){
+    if (f.analogs().nbSubframes() > 0 && static_cast<double>(parameters().group("ANALOG").parameter("RATE").valuesAsFloat().at(0)) == 0.0){
         throw std::runtime_error("Analog frame rate must be specified if you add some");
     }
 
-    size_t nAnalogs(static_cast<size_t>(parameters().group("ANALOG").parameter("USED").valuesAsInt()[0]));
+    size_t nAnalogs(static_cast<size_t>(parameters().group("ANALOG").parameter("USED").valuesAsInt().at(0)));
     size_t subSize(f.analogs().nbSubframes());
     if (subSize != 0){
         size_t nChannel(f.analogs().subframe(0).nbChannels());
@@ -436,13 +436,13 @@ void ezc3d::c3d::analog(const std::vector<ezc3d::DataNS::Frame> &frames)
 void ezc3d::c3d::updateHeader()
 {
     // Parameter is always consider as the right value. If there is a discrepancy between them, change the header
-    float pointRate(parameters().group("POINT").parameter("RATE").valuesAsFloat()[0]);
+    float pointRate(parameters().group("POINT").parameter("RATE").valuesAsFloat().at(0));
     float buffer(10000); // For decimal truncature
     if (static_cast<int>(pointRate*buffer) != static_cast<int>(header().frameRate()*buffer)){
         _header->frameRate(pointRate);
     }
-    if (static_cast<size_t>(parameters().group("POINT").parameter("USED").valuesAsInt()[0]) != header().nb3dPoints()){
-        _header->nb3dPoints(static_cast<size_t>(parameters().group("POINT").parameter("USED").valuesAsInt()[0]));
+    if (static_cast<size_t>(parameters().group("POINT").parameter("USED").valuesAsInt().at(0)) != header().nb3dPoints()){
+        _header->nb3dPoints(static_cast<size_t>(parameters().group("POINT").parameter("USED").valuesAsInt().at(0)));
     }
 
     // Compare the subframe with data when possible, otherwise go with the parameters
@@ -456,23 +456,23 @@ void ezc3d::c3d::updateHeader()
                 if (static_cast<size_t>(header().nbAnalogByFrame()) != 1)
                     _header->nbAnalogByFrame(1);
             } else {
-                if (static_cast<size_t>(parameters().group("ANALOG").parameter("RATE").valuesAsFloat()[0] / pointRate)  != static_cast<size_t>(header().nbAnalogByFrame()))
-                    _header->nbAnalogByFrame(static_cast<size_t>(parameters().group("ANALOG").parameter("RATE").valuesAsFloat()[0] / pointRate));
+                if (static_cast<size_t>(parameters().group("ANALOG").parameter("RATE").valuesAsFloat().at(0) / pointRate)  != static_cast<size_t>(header().nbAnalogByFrame()))
+                    _header->nbAnalogByFrame(static_cast<size_t>(parameters().group("ANALOG").parameter("RATE").valuesAsFloat().at(0) / pointRate));
             }
         }
     }
 
     // Should always be greater than 0, but we have to take in account Optotrak lazyness
     if (parameters().group("ANALOG").nbParameters()){
-        if (static_cast<size_t>(parameters().group("ANALOG").parameter("USED").valuesAsInt()[0]) != header().nbAnalogs())
-            _header->nbAnalogs(static_cast<size_t>(parameters().group("ANALOG").parameter("USED").valuesAsInt()[0]));
+        if (static_cast<size_t>(parameters().group("ANALOG").parameter("USED").valuesAsInt().at(0)) != header().nbAnalogs())
+            _header->nbAnalogs(static_cast<size_t>(parameters().group("ANALOG").parameter("USED").valuesAsInt().at(0)));
     } else
         _header->nbAnalogs(0);
 
     // The number of frames reported by the header depends on the number of points and analogs, so it is compared last
-    if (static_cast<size_t>(parameters().group("POINT").parameter("FRAMES").valuesAsInt()[0]) != header().nbFrames()){
+    if (static_cast<size_t>(parameters().group("POINT").parameter("FRAMES").valuesAsInt().at(0)) != header().nbFrames()){
         _header->firstFrame(0);
-        _header->lastFrame(static_cast<size_t>(parameters().group("POINT").parameter("FRAMES").valuesAsInt()[0]) - 1);
+        _header->lastFrame(static_cast<size_t>(parameters().group("POINT").parameter("FRAMES").valuesAsInt().at(0)) - 1);
     }
 }
 
@@ -486,7 +486,7 @@ void ezc3d::c3d::updateParameters(const std::vector<std::string> &newPoints, con
     // If frames has been added
     ezc3d::ParametersNS::GroupNS::Group& grpPoint(_parameters->group_nonConst(parameters().groupIdx("POINT")));
     size_t nFrames(data().nbFrames());
-    if (nFrames != static_cast<size_t>(grpPoint.parameter("FRAMES").valuesAsInt()[0])){
+    if (nFrames != static_cast<size_t>(grpPoint.parameter("FRAMES").valuesAsInt().at(0))){
         size_t idx(grpPoint.parameterIdx("FRAMES"));
         grpPoint.parameter_nonConst(idx).set(nFrames);
     }
@@ -497,7 +497,7 @@ void ezc3d::c3d::updateParameters(const std::vector<std::string> &newPoints, con
         nPoints = data().frame(0).points().nbPoints();
     else
         nPoints = parameters().group("POINT").parameter("LABELS").valuesAsString().size() + newPoints.size();
-    if (nPoints != static_cast<size_t>(grpPoint.parameter("USED").valuesAsInt()[0])){
+    if (nPoints != static_cast<size_t>(grpPoint.parameter("USED").valuesAsInt().at(0))){
         grpPoint.parameter_nonConst("USED").set(nPoints);
 
         size_t idxLabels(grpPoint.parameterIdx("LABELS"));
@@ -535,7 +535,7 @@ void ezc3d::c3d::updateParameters(const std::vector<std::string> &newPoints, con
             nAnalogs = 0;
     } else
         nAnalogs = parameters().group("ANALOG").parameter("LABELS").valuesAsString().size() + newAnalogs.size();
-    if (nAnalogs != static_cast<size_t>(grpAnalog.parameter("USED").valuesAsInt()[0])){
+    if (nAnalogs != static_cast<size_t>(grpAnalog.parameter("USED").valuesAsInt().at(0))){
         grpAnalog.parameter_nonConst("USED").set(nAnalogs);
 
         size_t idxLabels(static_cast<size_t>(grpAnalog.parameterIdx("LABELS")));
